@@ -432,7 +432,9 @@ register_function(lambda rv: rv.mean(), "E", (RandomVariable,), "Expectation of 
 register_function(lambda rv: rv.sample(), "sample", (RandomVariable,), "Sample a value from a random distribution.")
 
 def sample_multiple(rv, n):
-    return Array([rv.sample() for _ in range(n)])
+    # Each element gets the same simplification (and the same overflow
+    # check on an infinite value) as the result of a single sample().
+    return Array([simplify_type(rv.sample()) for _ in range(n)])
 register_function(sample_multiple,
                   "sample",
                   (RandomVariable, Integral),
